@@ -336,15 +336,23 @@ func vfC14gen(t *rapid.T) *vfC14Case {
 	// the code documents "no total recorded => the payload is a single frame": the
 	// frame count is omitted only for single-frame payloads
 	c.Total = c.Frames > 1 || rapid.IntRange(0, 3).Draw(t, "total") != 0
-	if c.Frames >= 2 && rapid.Bool().Draw(t, "withFault") {
+	if rapid.Bool().Draw(t, "withFault") {
 		c.Fault = rapid.SampledFrom([]string{"missing", "drop-link", "dup-link", "bitflip", "foreign", "swap"}).Draw(t, "fault")
+		if c.Frames == 1 {
+			// a single frame can only be altered
+			c.Fault = rapid.SampledFrom([]string{"bitflip", "foreign"}).Draw(t, "fault1")
+		}
 		// faults are judged for payloads carrying checksum and frame count
 		if c.Hash == "none" {
 			c.Hash = "crc"
 		}
 		c.Total = true
-		c.FaultA = rapid.IntRange(1, c.Frames-1).Draw(t, "faultA")
-		c.FaultB = rapid.IntRange(1, c.Frames-1).Draw(t, "faultB")
+		lo := 1
+		if c.Fault == "bitflip" || c.Fault == "foreign" || c.Fault == "swap" {
+			lo = 0 // the data of the first frame (the one embedded in the transaction / rewards node) can be altered too
+		}
+		c.FaultA = rapid.IntRange(lo, c.Frames-1).Draw(t, "faultA")
+		c.FaultB = rapid.IntRange(min(1, c.Frames-1), c.Frames-1).Draw(t, "faultB")
 		c.FlipBit = rapid.IntRange(0, 1<<20).Draw(t, "flipBit")
 	}
 	return c
